@@ -613,3 +613,12 @@ case("c08-optfqp-inv-low-not-reduced", ["C08"], OFE, "            new = [int(x) 
 case("c08-rounded-div-wrong-leading-coefficient", ["C08"], UT, "        o[i] += int(temp[degb + i] / b[degb])", "        o[i] += int(temp[degb + i] / b[0])", rule="C08.R8")
 case("c08-twin-fqp-inv-operands-swapped", ["C08", "C14"], OFE, "                    nm[i + j] -= lm[i] * int(r[j])", "                    nm[i + j] = nm[i + j] - int(r[j]) * lm[i]", expect="silent")
 case("c08-twin-rounded-div-true-quotient", ["C08", "C07", "C14"], UT, "            temp[c + i] -= o[c]", "            temp[c + i] -= o[i] * b[c]", expect="silent")
+
+# ---- round 6 machinery
+SECP_F = "py_ecc/secp256k1/secp256k1.py"
+OBC = "py_ecc/optimized_bls12_381/optimized_curve.py"
+case("c19-twin-parity-by-mask", ["C19", "C06"], SECP_F, "    y = beta if v % 2 ^ beta % 2 else (P - beta)", "    y = beta if (v % 2) ^ (beta & 1) else (P - beta)", expect="silent")
+case("c19-twin-residue-gate-on-beta", ["C19", "C06"], SECP_F, "    if (xcubedaxb - y * y) % P != 0 or not (r % N) or not (s % N):",
+     "    if beta * beta % P != xcubedaxb or not (r % N) or not (s % N):", expect="silent")
+# a branch taken only for one particular object: walked (the generic point may be that object), not pruned
+case("c07-specialisation-on-generator-object", ["C07", "C17"], OBC, "    elif n == 1:\n        return pt\n", "    elif n == 1:\n        return pt\n    elif pt is G1 and n > 5:\n        return pt\n", rule="C07.R3")
